@@ -982,6 +982,7 @@ namespace sim
 				{
 					std::printf("socks_connection(%s): error writing to client: (%d) %s\n"
 						, command(), ec.value(), ec.message().c_str());
+					self->close_connection();
 					return;
 				}
 
